@@ -69,6 +69,27 @@ impl Cubic {
     }
 }
 
+#[cfg(feature = "verif")]
+impl Cubic {
+    /// Verification hook: read-only copy of the internal state
+    /// (cwnd, ssthresh, k, w_max, w_max_last, rwnd), mss, rwnd_bytes, last_congestion_event.
+    pub fn verif_fields(&self) -> ([f64; 6], usize, usize, Instant) {
+        (
+            [
+                self.cwnd,
+                self.ssthresh,
+                self.k,
+                self.w_max,
+                self.w_max_last,
+                self.rwnd,
+            ],
+            self.mss,
+            self.rwnd_bytes,
+            self.last_congestion_event,
+        )
+    }
+}
+
 impl CongestionController for Cubic {
     fn window(&self) -> usize {
         // Clamp to the peer's window in bytes: going through MSS units and back may be off by a
